@@ -381,7 +381,7 @@ fn main() {
 		lines = read_case_lines(r);
 	} else {
 		lines.extend(corpus_lines("C16"));
-		let n = a.cases.unwrap_or(if a.tier == "thorough" { 150000 } else { 8000 });
+		let n = a.cases.unwrap_or(if a.tier == "thorough" { 1000000 } else { 8000 });
 		let mut rng = Rng::new(a.seed);
 		gen_lines(&mut rng, n, &mut lines);
 	}
